@@ -217,7 +217,7 @@ def run_batch(check, tier, vseed, b, indices, ref_table, timeout, want_logs=Fals
         if not todo:
             break
         job = {"check": check, "tier": tier, "seed": vseed, "indices": todo, "ref_table": ref_table,
-               "want_logs": want_logs, "run_timeout": 300}
+               "want_logs": want_logs, "run_timeout": 600}
         lines, err, rc = _run_worker(job, hs, timeout)
         all_lines += lines
         if any("summary" in l for l in lines):
@@ -229,8 +229,8 @@ def run_batch(check, tier, vseed, b, indices, ref_table, timeout, want_logs=Fals
         culprit = started[-1] if started and started[-1] not in finished else None
         if culprit is None:
             break  # died outside any case: harness problem
-        job1 = dict(job, indices=[culprit], run_timeout=180)
-        l1, e1, rc1 = _run_worker(job1, hs, 400)
+        job1 = dict(job, indices=[culprit], run_timeout=300)
+        l1, e1, rc1 = _run_worker(job1, hs, 700)
         if any("summary" in l for l in l1):
             all_lines += l1   # a one-off (machine load): the retry completed
         else:
@@ -296,7 +296,7 @@ def coordinator(check, tier, runs, budget_s, workers, vseed):
     hashseeds = set()
     seams_seen = {}
     n_batches = (total + B - 1) // B
-    batch_timeout = 900 if tier == "quick" else 1800
+    batch_timeout = 3600
     done_runs = 0
     next_b = 0
     deadline = t0 + budget_s
